@@ -107,12 +107,14 @@ fn files_for(lens: &[u64], bad: u64, cls: bool) -> Vec<String> {
             for i in 0..n {
                 if is_bad(bad, k as u64, i) {
                     // a line that does not parse: the loader drops it (with a warning) but it keeps its global index
-                    writeln!(f, "this line is not json").unwrap();
+                    let bad_line = ["this line is not json", "{\"text\": \"no input key\"}", "{\"input\": 5}", "[1, 2]", "{\"input\": \"x\", \"target\": 7}", "\"just a string\"", ""][((i + k as u64) % 7) as usize];
+                    writeln!(f, "{bad_line}").unwrap();
                     continue;
                 }
                 // the first word carries the identity; the rest gives the corruptions something to work on
                 let w = id_word(k as u64, i);
-                let text = format!("{w} the quick {w} brown fox {w} jumps over {w} a lazy dog {w}");
+                // (punctuation attached to words: the realistic spelling corruption then replaces word PARTS)
+                let text = format!("{w} the quick, {w} brown-fox {w} (jumps) over {w} a lazy dog. {w}");
                 if cls {
                     writeln!(f, "{{\"input\": \"{text}\", \"target\": \"c{}\"}}", (i + k as u64) % 3).unwrap();
                 } else {
@@ -161,12 +163,12 @@ fn missp_file() -> String {
 }
 
 /// number of pipeline configurations `pipeline` knows
-pub const N_PREP: u64 = 16;
+pub const N_PREP: u64 = 17;
 
 /// `max_length` of the loader (what `ClipLength` clips to)
 fn max_len(prep: u64) -> usize {
     match prep {
-        5 | 9 | 13 => 40,
+        5 | 6 | 9 | 13 | 14 => 40,
         _ => 512,
     }
 }
@@ -198,7 +200,7 @@ fn pipeline(prep: u64, nfiles: usize) -> TrainPipelineConfig {
             cond,
             Po::ClipLength,
         ),
-        6 => g(Pr::Chain(vec![ws, Pr::CharSubstring(50, true)]), wsc, Po::None),
+        6 => g(Pr::Chain(vec![ws, Pr::CharSubstring(50, true)]), wsc, Po::ClipLength),
         7 => g(Pr::Chain(vec![ws, Pr::ByteSubstring(60, false)]), TrainTaskConfig::WhitespaceCorrection(false, byte_tok()), Po::None),
         8 => g(Pr::Switch(vec![Pr::NoWhitespaces(Part::Input, true), Pr::FullWhitespaces(Part::Input, true), ws, Pr::None], vec![0.25, 0.25, 0.25, 0.25]), wsc, Po::None),
         9 => g(
@@ -217,9 +219,12 @@ fn pipeline(prep: u64, nfiles: usize) -> TrainPipelineConfig {
         14 => g(
             Pr::Switch(vec![Pr::Prefix(Part::Input, "a ".into()), Pr::Suffix(Part::Input, " z".into()), Pr::None], vec![0.3, 0.3, 0.4]),
             TrainTaskConfig::Classification(byte_tok(), true, vec!["c0".into(), "c1".into(), "c2".into()]),
-            Po::Switch(vec![Po::None, mask], vec![0.5, 0.5]),
+            Po::Chain(vec![Po::Switch(vec![Po::None, mask], vec![0.5, 0.5]), Po::ClipLength]),
         ),
-        _ => g(Pr::WhitespaceCorruption(Part::Target, 0.2, 0.2, true), cond, Po::None),
+        // (few insertions: the target becomes the corrupted input and must still carry a whole identity word)
+        16 => g(Pr::Chain(vec![Pr::Clean(Part::Input, true), Pr::WhitespaceCorruption(Part::Input, 0.02, 0.4, true), Pr::Overwrite(Part::Target)]), gen, Po::None),
+        15 => g(Pr::WhitespaceCorruption(Part::Target, 0.2, 0.2, true), cond, Po::None),
+        _ => g(Pr::None, wsc, Po::None),
     }
 }
 
@@ -574,7 +579,7 @@ fn rand_cfg(ctx: &mut Ctx) -> Cfg {
 
 pub fn run_c08(ctx: &mut Ctx) {
     ctx.case_timeout = std::time::Duration::from_secs(300);
-    let n = ctx.budget(48, 1500);
+    let n = ctx.budget(51, 1500);
     for i in 0..n {
         let mut c = rand_cfg(ctx);
         // every pipeline configuration in turn (a quick run sees each of them three times)
